@@ -86,6 +86,11 @@ def gen(rng):
             p = d + '/inside'
             G.make_entry(rng, p, 'file', steps, aux)
             faults.append({'kind': 'cond', 'what': 'dir_not_writable', 'dir': d})
+        if cls in ('immutable', 'rodir', 'infofail', 'ok') and p and rng.random() < 0.25:
+            # owned by numeric ids without passwd / group entry: whatever describes the entry in a message must cope
+            steps.append(['own', p, rng.choice([54321, 0]), rng.choice([54321, 54322])])
+            if rng.random() < 0.5:
+                steps.append(['own', posixpath.dirname(p), 54321, 54321])
         args.append(p)
     if dup and args:
         args.insert(rng.randint(0, len(args)), rng.choice(args))
